@@ -800,7 +800,10 @@ class BaseSetIndexSortValues(Expr):
 
     @property
     def npartitions(self):
-        return self.operand("npartitions") or len(self._divisions()) - 1
+        # Not ``self.operand("npartitions")``: that is the number of quantiles that
+        # were asked for; duplicates among them are dropped, so the division
+        # vector (and the lowered expression) can describe fewer partitions.
+        return len(self._divisions()) - 1
 
 
 class SetIndex(BaseSetIndexSortValues):
